@@ -49,11 +49,12 @@ class Check(CheckBase):
             'BACKEND: a child process runs the command on a copy of the repository directory and dies by os._exit at the k-th '
             'crash point - before every filesystem mutation under the repository (audit hook) and right after every '
             'replace/rename/unlink returned - plus derived states with every temporary file cut to 0/1/half/len-1 bytes; '
-            '(3) ONE PERMANENT FAILURE: the k-th backend call of the command raises. Every state goes through the follow-up '
+            '(3) ONE PERMANENT FAILURE: the k-th backend call of the command raises (every mutating call and every listing / download of a snapshot object, plus a seeded sample of the rest). Every state goes through the follow-up '
             'oracle with fresh Repository objects: every listed snapshot decodes and restores to exactly what was captured '
             '(the interrupted one fully or not at all), every listed object is a complete object (chunk authenticates and '
             'hashes to the digest its name stands for), no listed name is a temporary, a new snapshot of the same data + its '
-            'restore + clean succeed, and after clean the chunk objects equal the referenced set. '
+            'restore + clean succeed, and after clean the chunk objects equal the referenced set; in half of the states clean runs '
+            'FIRST, straight after the interruption. '
             'class = (family, command, position class of the crash point, backend flavour)')
     assumptions = ['power-loss durability (no fsync in the code) is not "the process is killed" and is not claimed',
                    'partial write() progress is emulated by truncating temporaries, not by stopping the kernel mid-syscall',
